@@ -90,6 +90,75 @@ theorem compareRec_eq_iff (a b : Rec) :
 /-- what is compared: class, type, RDATA (not the owner name, TTL or cache-flush bit) -/
 def dataOf (r : Rec) : Nat × Nat × RData := (r.cls, r.ty, r.rdata)
 
+/-! ### transitivity of "earlier" -/
+
+theorem cmpBytes_lt_trans : ∀ a b c : BList, cmpBytes a b = .lt → cmpBytes b c = .lt → cmpBytes a c = .lt
+  | [], [], _, h, _ => by simp [cmpBytes] at h
+  | [], _ :: _, [], _, h => by simp [cmpBytes] at h
+  | [], _ :: _, _ :: _, _, _ => by simp [cmpBytes]
+  | _ :: _, [], _, h, _ => by simp [cmpBytes] at h
+  | _ :: _, _ :: _, [], _, h => by simp [cmpBytes] at h
+  | x :: as, y :: bs, z :: cs, h1, h2 => by
+    simp only [cmpBytes] at h1 h2 ⊢
+    have ih := cmpBytes_lt_trans as bs cs
+    by_cases hxy : x < y
+    · by_cases hyz : y < z
+      · have : x < z := UInt8.lt_trans hxy hyz
+        simp [this]
+      · simp only [hyz, if_false] at h2
+        by_cases hzy : z < y
+        · simp [hzy] at h2
+        · have : y = z := by
+            have := UInt8.le_antisymm (UInt8.not_lt.mp hzy) (UInt8.not_lt.mp hyz)
+            exact this
+          subst this; simp [hxy]
+    · simp only [hxy, if_false] at h1
+      by_cases hyx : y < x
+      · simp [hyx] at h1
+      · have hxy' : x = y := UInt8.le_antisymm (UInt8.not_lt.mp hyx) (UInt8.not_lt.mp hxy)
+        subst hxy'
+        simp only [hyx, if_false] at h1
+        by_cases hyz : x < z
+        · simp [hyz]
+        · simp only [hyz, if_false] at h2 ⊢
+          by_cases hzy : z < x
+          · simp [hzy] at h2
+          · simp only [hzy, if_false] at h2 ⊢
+            exact ih h1 h2
+
+theorem then_lt_iff (x y : Ordering) : x.then y = .lt ↔ x = .lt ∨ (x = .eq ∧ y = .lt) := by
+  cases x <;> simp [Ordering.then]
+
+
+theorem cmpNat_lt_trans (a b c : Nat) (h1 : cmpNat a b = .lt) (h2 : cmpNat b c = .lt) : cmpNat a c = .lt := by
+  rw [cmpNat_lt_iff] at *; omega
+
+theorem compareRData_lt_trans (x y z : RData) (h1 : compareRData x y = .lt) (h2 : compareRData y z = .lt) :
+    compareRData x z = .lt := by
+  have T := cmpBytes_lt_trans
+  cases x <;> cases y <;> simp only [compareRData, reduceCtorEq] at h1 <;>
+    cases z <;> simp only [compareRData, reduceCtorEq] at h2 ⊢ <;>
+    (try simp only [then_lt_iff, cmpNat_lt_iff, cmpNat_eq_iff, cmpBytes_eq_iff] at h1 h2 ⊢) <;>
+    first
+      | exact T _ _ _ h1 h2
+      | (rcases h1 with h1 | ⟨e1, h1⟩ <;> rcases h2 with h2 | ⟨e2, h2⟩ <;> subst_vars <;>
+          first
+          | exact Or.inl (T _ _ _ h1 h2)
+          | exact Or.inl h1
+          | exact Or.inl h2
+          | exact Or.inr ⟨rfl, T _ _ _ h1 h2⟩)
+      | grind
+
+theorem compareRec_lt_trans (a b c : Rec) (h1 : compareRec a b = .lt) (h2 : compareRec b c = .lt) :
+    compareRec a c = .lt := by
+  have T := compareRData_lt_trans a.rdata b.rdata c.rdata
+  simp only [compareRec, then_lt_iff, cmpNat_lt_iff, cmpNat_eq_iff] at h1 h2 ⊢
+  rcases h1 with h1 | ⟨e1, h1 | ⟨e1', h1⟩⟩ <;> rcases h2 with h2 | ⟨e2, h2 | ⟨e2', h2⟩⟩ <;>
+    first
+    | (left; omega)
+    | (right; refine ⟨by omega, ?_⟩; left; omega)
+    | (right; exact ⟨by omega, Or.inr ⟨by omega, T h1 h2⟩⟩)
+
 theorem compareRec_eq_iff_data (a b : Rec) : compareRec a b = .eq ↔ dataOf a = dataOf b := by
   rw [compareRec_eq_iff]
   simp [dataOf]
